@@ -604,8 +604,13 @@ class Inliner:
         for _round in range(3):
             any_change = False
             for fi in funcs:
-                if self._process(fi):
-                    any_change = True
+                try:
+                    if self._process(fi):
+                        any_change = True
+                except RecursionError:
+                    raise
+                except Exception as e:  # noqa -- an unforeseen construct: leave this function as written
+                    self.log.append(f"{fi.short}: inlining skipped ({type(e).__name__}: {e})")
             if not any_change:
                 break
         return self.log
